@@ -23,7 +23,7 @@ HEADER = (
     "Require Import PV.Core.Obj PV.Core.Val PV.Core.Subst PV.Core.C14Run.\n"
 )
 
-LAWS = ["walk_covers_subst", "idem_self", "refl", "sym", "trans", "eq_hash", "merged", "idem", "never_identity", "comm", "assoc", "no_nesting",
+LAWS = ["accepts3", "walk_covers_subst", "idem_self", "refl", "sym", "trans", "eq_hash", "merged", "idem", "never_identity", "comm", "assoc", "no_nesting",
         "members", "accepts", "subst_closed", "subst_elim", "subst_comm", "normal_fix"]
 
 
@@ -161,6 +161,11 @@ def impl_case(case):
     if tvfree:
         ctx = checker()
         laws["accepts"] = isinstance(ab.can_assign(a, ctx), dict) and isinstance(ab.can_assign(b, ctx), dict)
+        # "accepts each operand" for the three-operand union as well, and for every alternative of the operands
+        abc = un(a, b, c)
+        if not has_kind([case["c"]], ("tv",)):
+            laws["accepts3"] = all(isinstance(abc.can_assign(x, ctx), dict) for x in (a, b, c)) and \
+                all(isinstance(abc.can_assign(x, ctx), dict) for v in (a, b, c) for x in V.flatten_values(v))
     # closedness is read off the spec (TypedDictValue.walk_values skips extra_keys)
     if not has_kind(case["a"], ("tv", "class")) and not has_raw_union(case["a"]):
         laws["subst_closed"] = sa == a
